@@ -8,6 +8,7 @@ Oracle: the property itself, evaluated on the real class with harness-side bookk
 import gc
 import itertools
 import json
+import os
 import sys
 
 import common
@@ -65,6 +66,11 @@ class World:
             return arr
         if cls == "s":          # Series: copied by put ("view busting"), weak-referenceable
             return pd.Series([vid] + [0] * (max(1, n // 8) - 1), dtype="int64")
+        if cls in ("l", "d"):   # list / dict of more than ten elements of uneven size: the size is *estimated*
+            k = 12 + vid % 7
+            first = tagb + bytes(max(0, n // k - 45))
+            lst = [first] + ["x" * ((i * 37 + vid) % 101) for i in range(1, k)]
+            return lst if cls == "l" else {"k%d" % i: x for i, x in enumerate(lst)}
         raise ValueError(cls)
 
     def tag(self, obj):
@@ -77,6 +83,10 @@ class World:
             return int.from_bytes(bytes(obj[:4].tolist()), "little")
         if isinstance(obj, pd.Series):
             return int(obj.iloc[0])
+        if isinstance(obj, list):
+            return int.from_bytes(obj[0][:4], "little")
+        if isinstance(obj, dict):
+            return int.from_bytes(obj["k0"][:4], "little")
         return -1
 
     def frh(self, key):
@@ -109,7 +119,7 @@ class World:
                     self.ngen += 1
                     self.oid[vid] = vid + COPY * self.ngen
                 oid = self.oid[vid]
-                size = int(c._estimate_object_size(obj))
+                size = c._estimate_object_size(obj)
                 wr = cls in ("a", "s")
                 if wr:
                     self.held[vid] = obj      # the caller keeps using its result
@@ -119,7 +129,7 @@ class World:
                 else:
                     vc = "-"
             else:
-                obj, size, wr, vc, vid, oid = None, int(c._estimate_object_size(None)), False, "-", 0, 0
+                obj, size, wr, vc, vid, oid = None, c._estimate_object_size(None), False, "-", 0, 0
             before = self.resident_set()
             c.put(m, obj, has_result=bool(has))
             self.cur[key] = m
@@ -129,7 +139,7 @@ class World:
             if key in after:
                 self.lastuse[key] = self.clock
             self._evicted = (key, size, before, after)
-            line = "put %d %d %d %d %d %d %d %s" % (f, a, mid, oid, size, int(wr), int(bool(has)), vc)
+            line = "put %d %d %d %d %d %d %d %s" % (f, a, mid, oid, int(size), int(wr), int(bool(has)), vc)
             if wr:
                 line = ["hold %d" % oid, line]
             del obj
@@ -162,6 +172,14 @@ class World:
             if self.resident(key):
                 self.lastuse[key] = self.clock
             return "ismem %d %d" % key, "1" if r else "0"
+        if kind == "allmem":
+            keys = [tuple(k) for k in op[1]]
+            r = c.is_all_memoized([self.fwa[k] for k in keys])
+            for k in keys:                      # a query is a use of every queried call that is resident
+                self.clock += 1
+                if self.resident(k):
+                    self.lastuse[k] = self.clock
+            return "allmem " + " ".join("%d:%d" % k for k in keys), "1" if r else "0"
         if kind == "fcall":
             key = (op[1], op[2])
             c.forget_call(self.frh(key))
@@ -203,14 +221,15 @@ class World:
             if size > self.budget and key in after:
                 # (reported alone: the accounting below presumes the resident entry is the last put)
                 return [dict(clause="oversize-never-resident", key=key, size=size, budget=self.budget)]
-        accounted = sum(self.last_put[k]["size"] for k in res)
+        from fractions import Fraction
+        accounted = sum((Fraction(self.last_put[k]["size"]) for k in res), Fraction(0))     # exact, whatever the number type
         usage = c.memory_usage
-        if usage != accounted:
-            fails.append(dict(clause="usage-equals-resident", usage=int(usage), accounted=accounted, resident=res))
+        if Fraction(usage) != accounted:
+            fails.append(dict(clause="usage-equals-resident", usage=repr(usage), accounted=repr(float(accounted)), resident=res))
         if accounted > self.budget or usage > self.budget:
-            fails.append(dict(clause="never-exceeds-budget", usage=int(usage), accounted=accounted, budget=self.budget))
+            fails.append(dict(clause="never-exceeds-budget", usage=repr(usage), accounted=repr(float(accounted)), budget=self.budget))
         if not res and usage != 0:
-            fails.append(dict(clause="zero-after-forgetting-everything", usage=int(usage)))
+            fails.append(dict(clause="zero-after-forgetting-everything", usage=repr(usage)))
         if op[0] == "put":
             key, size, before, after = self._evicted
             if size > self.budget and key in after:
@@ -292,12 +311,12 @@ def gen_history(rng, budget, length):
     ops = []
     nvid = [0]
     live_vids = []
-    base_over = {"b": 33, "a": 112, "s": 140}
+    base_over = {"b": 33, "a": 112, "s": 140, "l": 700, "d": 1100}
 
     def newval():
         nvid[0] += 1
-        cls = rng.choice("bbaas")
-        frac = rng.choice([0.05, 0.2, 0.3, 0.5, 0.5, 1.0, 1.0, 1.3, 3.0])
+        cls = rng.choice("bbbaasl" if budget < 3000 else "bbaasldl")
+        frac = rng.choice([0.05, 0.2, 0.3, 0.5, 0.5, 1.0, 1.0, 1.3, 3.0] if cls in "bas" else [0.3, 0.3, 0.5, 1.3])
         target = int(budget * frac)
         nbytes = max(4, target - base_over[cls])
         if frac == 1.0 and rng.random() < 0.5:
@@ -317,8 +336,11 @@ def gen_history(rng, budget, length):
             ops.append(["put", key[0], key[1], vid, cls, nbytes, has])
         elif r < 0.62:
             ops.append(["read", key[0], key[1]])
-        elif r < 0.72:
+        elif r < 0.70:
             ops.append(["ismem", key[0], key[1]])
+        elif r < 0.74:
+            ks = [[rng.choice(list(FNS)), rng.choice(ARGS)] for _ in range(rng.randint(1, 3))]
+            ops.append(["allmem", ks])
         elif r < 0.80:
             ks = [[rng.choice(list(FNS)), rng.choice(ARGS)] for _ in range(rng.randint(1, 3))]
             ops.append(["getm", ks])
@@ -374,6 +396,99 @@ def report(chk, budget, ops, res, source):
     })
 
 
+# ---- the glue between the cache and the store: "keep being served without touching the underlying store" ------------
+_AUD = {"on": False, "roots": (), "paths": [], "installed": False}
+
+
+def _audit_hook(event, args):
+    if not _AUD["on"] or event not in ("open", "os.listdir", "os.scandir"):
+        return
+    try:
+        p = os.fspath(args[0]) if args and args[0] is not None else ""
+    except TypeError:
+        return
+    if isinstance(p, bytes):
+        p = p.decode("utf-8", "replace")
+    if any(p.startswith(r) for r in _AUD["roots"]):
+        _AUD["paths"].append(event + ":" + p)
+
+
+GLUE_BUDGET = 4 * 2 ** 20       # far more than all 18 calls x the largest value: room is never needed
+
+
+def glue_run(cfg, ops, root=None):
+    """the real filesystem backend with a memory cache so large that nothing ever has to be dropped: every call whose
+    value was written or read since it was last forgotten is resident, so look-ups, reads and is-memoized queries of it
+    must not open, list or scan anything under the store's directories (file-system audit events of the interpreter).
+    Harness-side bookkeeping only: the set of calls written/read and not forgotten since."""
+    import storeworld as sw
+    if not _AUD["installed"]:
+        sys.addaudithook(_audit_hook)
+        _AUD["installed"] = True
+    w = sw.World(cfg, root=root)
+    spec = sw.DictOracle()
+    hot = set()
+    fails = []
+    mid = 0
+    try:
+        _AUD["roots"] = tuple({os.path.realpath(w.data_dir), os.path.realpath(w.meta_dir), w.data_dir, w.meta_dir})
+        for i, op in enumerate(ops):
+            op = list(op)
+            if not spec.admissible(op):
+                continue
+            if op[0] == "memoize":
+                mid += 1
+                op = op[:5] + [mid]
+            k = op[0]
+            watched = ((k in ("lookread", "ismem") and (op[1], op[2]) in hot) or
+                       (k == "getm" and all(tuple(x) in hot for x in op[1])))
+            _AUD["paths"] = []
+            _AUD["on"] = True
+            try:
+                real = w.apply(op)
+            finally:
+                _AUD["on"] = False
+            want = spec.step(op)
+            if watched and _AUD["paths"]:
+                fails.append(dict(clause="resident-served-without-store", step=i, op=op, touched=_AUD["paths"][:3],
+                                  answer=real))
+                break
+            if watched and real != want:
+                fails.append(dict(clause="resident-entry-served-from-cache", step=i, op=op, got=real, expected=want))
+                break
+            if k == "memoize":
+                (hot.add if op[4] is not None else hot.discard)((op[1], op[2]))
+            elif k == "lookread" and want not in ("none", "v:null"):
+                hot.add((op[1], op[2]))
+            elif k == "fcall":
+                hot.discard((op[1], op[2]))
+            elif k == "ffn":
+                hot = {x for x in hot if x[0] != op[1]}
+            elif k == "fall":
+                hot = set()
+    finally:
+        _AUD["on"] = False
+        w.close()
+    return fails
+
+
+GLUE_CORPUS = [
+    # a look-up of a group that mixes a resident call with one that is not memoized must leave the resident one resident
+    [["memoize", 1, 1, None, 9], ["memoize", 4, 1, None, 12], ["getm", [[1, 1], [4, 2]]], ["lookread", 1, 1], ["lookread", 4, 1]],
+    [["memoize", 1, 1, None, 9], ["memoize", 1, 2, None, 10], ["getm", [[1, 3], [1, 1], [1, 2]]], ["getm", [[1, 1], [1, 2]]],
+     ["lookread", 1, 2], ["ismem", 1, 1]],
+    # a value read from the store is resident afterwards (new backend object = empty cache is not modelled here: same object)
+    [["memoize", 5, 1, 1, 20], ["fcall", 5, 1], ["memoize", 5, 1, 1, 21], ["lookread", 5, 1], ["getm", [[5, 1]]], ["ismem", 5, 1]],
+]
+
+
+def glue_gen(rng, n):
+    import storeworld as sw
+    ops = sw.gen_ops(rng, n, fns=rng.choice([None, [1, 2, 4], [1, 5]]), part_rate=0.0)
+    return [o for o in ops if o[0] not in ("hold", "drop", "lsml")]
+
+
+
 def frame_scenario(seed, budget=200000, n=30):
     """data frames and series with more than 100 rows of uneven size, each about as large as the budget: the size of such an
     object is *estimated* from a random sample of rows, so two estimates of one object differ. Whatever the estimates are,
@@ -413,6 +528,10 @@ def main(chk, replay=None):
         bad = frame_scenario(replay["frame_seed"], replay["budget"])
         print(json.dumps(dict(still_fails=bool(bad), observed=bad[:3]), default=str))
         return 1 if bad else 0
+    if replay is not None and replay.get("glue"):
+        bad = glue_run(replay["config"], replay["ops"])
+        print(json.dumps(dict(still_fails=bool(bad), observed=bad[:3]), default=str))
+        return 1 if bad else 0
     if replay is not None:
         r = execute(replay["budget"], replay["ops"], use_model=False)
         cl = replay.get("class", {}).get("clause")
@@ -421,7 +540,7 @@ def main(chk, replay=None):
         return 1 if bad else 0
 
     chk.rule = ("op histories over 3 functions x 3 argument values on the real MemoryCache with byte-precise budgets; "
-                "values: bytes (not weak-referenceable), ndarray (weak-referenceable), Series (copied), memento-only; "
+                "values: bytes (not weak-referenceable), ndarray (weak-referenceable), Series (copied), lists / dicts of > 10 uneven elements (estimated size), memento-only; group queries (is_all_memoized); "
                 "sizes relative to the budget (5%..300%, exactly fitting +-1); plus data frames / series of > 100 uneven rows about as large "
                 "as the budget (their size is estimated from a random sample of rows; real cache only). Distinct = distinct (budget, op list); "
                 "non-trivial = contains >= 1 put.")
@@ -465,6 +584,27 @@ def main(chk, replay=None):
             chk.violation({"what": "cache accounting with sampled-size frames: %s" % ff[0]["clause"], "class": {"clause": ff[0]["clause"], "values": "frames"},
                            "frames": True, "frame_seed": fseed, "budget": 200000, "observed": ff[:2]})
             break
+    # the glue between the cache and the store (real filesystem backend + cache, audit events under the store directories)
+    glue_failed = 0
+    gl = [(g, "corpus") for g in GLUE_CORPUS] + [(None, "random")] * (40 if quick else 600)
+    for gi, (gops, gsrc) in enumerate(gl):
+        if gops is None:
+            gops = glue_gen(rng, rng.randint(5, 30 if quick else 60))
+        cfg = dict(kind="fs", budget=GLUE_BUDGET, separate=bool(gi % 2))
+        gf = glue_run(cfg, gops, root=chk.tmpdir())
+        chk.case(["glue", cfg, gops], nontrivial=any(o[0] == "memoize" for o in gops),
+                 sample=dict(kind="filesystem backend + cache, store accesses of resident calls", ops=gops[:6]))
+        chk.count("glue-histories")
+        chk.count("glue-ops", len(gops))
+        if gf:
+            glue_failed += 1
+            clause = gf[0]["clause"]
+            small = ddmin(gops[: gf[0]["step"] + 1], lambda cand: any(f["clause"] == clause for f in glue_run(cfg, cand, root=chk.tmpdir())))
+            chk.violation({"what": "a resident, recently used result was not served from memory: %s" % clause,
+                           "class": {"clause": clause, "level": "backend"}, "glue": True, "config": cfg, "ops": small,
+                           "observed": glue_run(cfg, small, root=chk.tmpdir())[:2] or gf[:2], "source": gsrc})
+            if glue_failed >= 2:
+                break
     # corpus of minimized past disagreements runs first
     for c in CORPUS:
         run_one(c["budget"], c["ops"], "corpus")
@@ -500,6 +640,15 @@ def main(chk, replay=None):
 
 
 CORPUS = [
+    # a group query [missing, (1,1)] is a use of (1,1) although it is listed after a call that is not resident: the put
+    # that needs room must drop (1,2)
+    dict(budget=1000, ops=[["put", 1, 1, 1, "b", 250, 1], ["put", 1, 2, 2, "b", 250, 1], ["put", 1, 3, 3, "b", 250, 1],
+                           ["allmem", [[3, 3], [1, 1]]], ["put", 2, 1, 5, "b", 250, 1], ["getm", [[1, 1], [1, 2], [1, 3], [2, 1]]], ["read", 1, 1]]),
+    # lists of more than ten uneven elements, forgotten one by one in two orders: the counter must return to zero exactly
+    dict(budget=20000, ops=[["put", 1, 1, 1, "l", 900, 1], ["put", 1, 2, 2, "l", 1700, 1], ["put", 1, 3, 3, "l", 2900, 1],
+                            ["fcall", 1, 1], ["fcall", 1, 2], ["fcall", 1, 3]]),
+    dict(budget=20000, ops=[["put", 1, 1, 4, "l", 900, 1], ["put", 1, 2, 5, "d", 1700, 1], ["put", 1, 3, 6, "l", 2900, 1],
+                            ["fcall", 1, 3], ["fcall", 1, 2], ["fcall", 1, 1]]),
     # forgetting another function must not disturb the recency order of the survivors: (1,1) was written first but read
     # last, so the put that needs room must evict (1,2), not (1,1)
     dict(budget=1000, ops=[["put", 1, 1, 1, "b", 250, 1], ["put", 1, 2, 2, "b", 250, 1], ["put", 1, 3, 3, "b", 250, 1],
